@@ -391,6 +391,10 @@ const NATIVE_CALLS: &[&str] = &[
     "structuredClone(new Map<any, any>([[{ a: 1 }, { b: [1, 2] }], [\"k\", [3, { c: @N }]], [@N, @S]])).size", "structuredClone(new Set<any>([{ a: 1 }, [2, 3], @A, @S])).size", "structuredClone({ m: new Map([[1, { x: @A }]]), s: new Set([@A]), d: new Date(0), r: /x/g, e: new Error(@S) }).m.size",
     "structuredClone([new Map([[@S, new Set([{ deep: @A }])]])])[0].size", "JSON.stringify([...structuredClone(new Map([[{ k: 1 }, new Map([[{ k: 2 }, @A]])]])).entries()])",
     "/^(?:(?=a)a+)+$/.test(\"a\".repeat(30) + \"!\")", "(\"a\".repeat(28) + \"!\").replace(/^(a+)+\\1$/, \"x\").length", "/(x+x+)+y/.test(\"x\".repeat(28))", "/^(\\w+\\s?)*$/.test(\"word \".repeat(8) + \"!\")", "(\"ab\".repeat(14) + \"c\").match(/^((?!c)(a|b)+)+$/)",
+    "(() => { let res: any; const p: any = new Promise((r: any) => { res = r; }); const q: any = Promise.resolve(@N); p.then(() => { q.x = 1; }); res(q); return String(q.x); })()",
+    "(() => { let rej: any; const p: any = new Promise((_: any, r: any) => { rej = r; }); const q: any = Promise.reject(@S); q.catch(() => 0); p.catch(() => { q.y = [1]; }); rej(q); return typeof q.y; })()",
+    "(() => { const q: any = Promise.resolve(@A); const p: any = Promise.resolve(q); p.then((v: any) => { q.z = v; (p as any).w = 1; }); return typeof q.z; })()",
+    "(() => { const t: any = { then(ok: any) { (t as any).hit = 1; ok(@N); } }; const p: any = Promise.resolve(t); p.then(() => { t.then = null; }); return String(t.hit); })()",
     "/[/.exec ? 1 : 0", "new RegExp(\"[\" + @S + \"]\").test(@S)", "new RegExp(\"a{\" + @I + \"}\").test(\"aaa\")", "new RegExp(\"\\\\\" + @I).test(@S)", "/(?:)/.test(@S)", "/\\u{1F600}/u.test(@S)", "@S.match(/\\p{L}/gu)",
 ];
 
